@@ -30,6 +30,7 @@ pub struct CreateOpts {
     pub queue_capacity: usize,
     pub fallback_frac: f64,
     pub pack_size: usize,
+    pub level: i32,
 }
 
 impl CreateOpts {
@@ -44,6 +45,7 @@ impl CreateOpts {
             queue_capacity: a.num("cap", 2usize << 30),
             fallback_frac: a.num("fallback", 0.0f64),
             pack_size: a.num("pack", 50usize),
+            level: a.num("level", 17i32),
         })
     }
 }
@@ -62,6 +64,7 @@ pub fn create_like_cli(o: &CreateOpts) -> Result<()> {
         segment_size: o.segment_size,
         min_match_len: o.min_match,
         pack_size: o.pack_size,
+        compression_level: o.level,
         queue_capacity: o.queue_capacity,
         num_threads: o.threads,
         verbosity: 0,
